@@ -247,3 +247,6 @@ func init() {
 }
 
 var _ = ref.JSON
+
+// NewLabOnlyMod initialises the probe module (fixtures, canary) without running anything.
+func NewLabOnlyMod(c *Ctx) (*probe.Lab, error) { return probe.NewLab(c.W) }
